@@ -72,6 +72,9 @@ mutual
         WT env (.obj [("Fn::Select", .arr [i, l])]) .str
     | base64 (e : J) : WT env e .str → WT env (.obj [("Fn::Base64", e)]) .str
     | subText (text : String) : SubOK env.params [] text → WT env (.obj [("Fn::Sub", .str text)]) .str
+    | subMap (text : String) (l : J) : WT env l .any →
+        (∀ loc, Spec.resolve env l = some (.obj loc) → SubOK env.params loc text) → (∀ v, Spec.resolve env l = some v → ∃ loc, v = .obj loc) →
+        WT env (.obj [("Fn::Sub", .arr [.str text, l])]) .str
     | ite (c : String) (a b : J) (τ : Ty) : WT env a τ → WT env b τ → WT env (.obj [("Fn::If", .arr [.str c, a, b])]) τ
     | findInMap (m k1 k2 : J) : WT env m .str → WT env k1 .str → WT env k2 .str → WT env (.obj [("Fn::FindInMap", .arr [m, k1, k2])]) .str
     | getAtt (body : J) : WT env (.obj [("Fn::GetAtt", body)]) .str
@@ -229,6 +232,13 @@ mutual
       unfold applyFn
       simp only [ro_sub]
       obtain ⟨out, hout⟩ := renderToks_total (subLookup env.params []) (tokens text.toList) hok
+      exact ⟨.str (String.ofList out), by simp [subText, hout], ⟨_, rfl⟩⟩
+    | _, _, .subMap text l hl hok hobj => by
+      obtain ⟨v, hv, _⟩ := C05_resolve_progress env hE l .any hl
+      obtain ⟨loc, hloc⟩ := hobj v hv
+      subst hloc
+      rw [(C01_sub env text l loc hv).2]
+      obtain ⟨out, hout⟩ := renderToks_total (subLookup env.params loc) (tokens text.toList) (hok loc hv)
       exact ⟨.str (String.ofList out), by simp [subText, hout], ⟨_, rfl⟩⟩
     | _, τ, .ite c a b _ ha hb => by
       obtain ⟨va, hva, hta⟩ := C05_resolve_progress env hE a τ ha
